@@ -258,6 +258,37 @@ def check_naive_bayes(case):
     return None
 
 
+def gen_anc5(tier, seed):
+    """every DAG on 5 nodes, in batches (the ancestor closure is cheap; dense 5-node graphs reach a node along many routes)"""
+    names = O.node_names(5, "x")
+    batch = []
+    for edges in O.all_dags(5, names):
+        if len(edges) < 5:
+            continue
+        batch.append(edges)
+        if len(batch) == 400:
+            yield {"nodes": names, "batch": batch, "edges": batch[0]}
+            batch = []
+    if batch:
+        yield {"nodes": names, "batch": batch, "edges": batch[0]}
+
+
+def check_anc5(case):
+    nodes = case["nodes"]
+    for edges in case["batch"]:
+        g = _dag({"nodes": nodes, "edges": edges})
+        for S in _subsets(nodes, 2):
+            if not S:
+                continue
+            anc = O.ancestors_or_self(edges, S)
+            got = g._get_ancestors_of(list(S))
+            if set(got) != anc:
+                return {"key": "_get_ancestors_of:result", "what": f"edges {edges}: {S}: got {sorted(got)} expected {sorted(anc)}"}
+            if len(S) == 1 and set(g.get_ancestral_graph(list(S)).nodes()) != anc:
+                return {"key": "get_ancestral_graph:result", "what": f"edges {edges}: {S}: nodes {sorted(g.get_ancestral_graph(list(S)).nodes())}"}
+    return None
+
+
 def nontrivial(case):
     return len(case.get("edges", case.get("features", []))) >= 1
 
@@ -274,4 +305,6 @@ def groups(tier):
         Group("minimal_dseparator", gen_dags, check_minimal_dseparator, nontrivial, engine="E3",
               bound="same DAG enumeration; every node pair; latent subsets of size <= 2 (<= 4 nodes), two 3-subsets on 5 nodes"),
         Group("naive_bayes", gen_naive, check_naive_bayes, nontrivial, engine="E3", bound="NaiveBayes models with 1..3 features, multi-character names"),
+        Group("ancestors_5", gen_anc5, check_anc5, nontrivial, engine="E3",
+              bound="every DAG on 5 nodes with >= 5 edges (28090 graphs): _get_ancestors_of for every node and pair, get_ancestral_graph for every node"),
     ]
